@@ -41,7 +41,11 @@ func Build14(dir string, perSeg int) ([]pub, []string, error) {
 	}
 	n := perSeg * 3
 	for i := 0; i < n; i++ {
-		m := klevdb.Message{Time: time.UnixMicro(int64(1_000_000 + i)).UTC(), Key: []byte{"ab"[i%2]}, Value: []byte(fmt.Sprintf("v%02d", i))}
+		key := []byte{"ab"[i%2]}
+		if i == n-2 {
+			key = []byte("c") // a key that lives only in the newest segment
+		}
+		m := klevdb.Message{Time: time.UnixMicro(int64(1_000_000 + i)).UTC(), Key: key, Value: []byte(fmt.Sprintf("v%02d", i))}
 		if _, err := lg.Publish([]klevdb.Message{m}); err != nil {
 			return nil, nil, err
 		}
@@ -151,7 +155,9 @@ func Damages14(files [][]byte) []Damage14 {
 type call struct {
 	name     string
 	f        func(l klevdb.Log) ([]klevdb.Message, error)
-	startSeg int // ConsumeByKey: segment file holding the start offset (-1 otherwise)
+	startSeg int    // ConsumeByKey: segment file holding the start offset (-1 otherwise)
+	key      string // ConsumeByKey: the key
+	start    int64  // ConsumeByKey: the start offset
 }
 
 func sweep(pubs []pub) []call {
@@ -167,7 +173,7 @@ func sweep(pubs []pub) []call {
 			cs = append(cs, call{fmt.Sprintf("Consume(%d,%d)", o, m), func(l klevdb.Log) ([]klevdb.Message, error) {
 				_, ms, err := l.Consume(o, m)
 				return ms, err
-			}, -1})
+			}, -1, "", 0})
 		}
 	}
 	for _, o := range offs {
@@ -178,9 +184,9 @@ func sweep(pubs []pub) []call {
 				return nil, err
 			}
 			return []klevdb.Message{m}, nil
-		}, -1})
+		}, -1, "", 0})
 	}
-	for _, k := range []string{"a", "b", "zz"} {
+	for _, k := range []string{"a", "b", "c", "zz"} {
 		k := k
 		cs = append(cs, call{fmt.Sprintf("GetByKey(%s)", k), func(l klevdb.Log) ([]klevdb.Message, error) {
 			m, err := l.GetByKey([]byte(k))
@@ -188,7 +194,7 @@ func sweep(pubs []pub) []call {
 				return nil, err
 			}
 			return []klevdb.Message{m}, nil
-		}, -1})
+		}, -1, "", 0})
 		for _, o := range offs {
 			for _, m := range []int64{1, 40} {
 				o, m := o, m
@@ -202,7 +208,7 @@ func sweep(pubs []pub) []call {
 				cs = append(cs, call{fmt.Sprintf("ConsumeByKey(%s,%d,%d)", k, o, m), func(l klevdb.Log) ([]klevdb.Message, error) {
 					_, ms, err := l.ConsumeByKey([]byte(k), o, m)
 					return ms, err
-				}, seg})
+				}, seg, k, o})
 			}
 		}
 	}
@@ -214,7 +220,7 @@ func sweep(pubs []pub) []call {
 				return nil, err
 			}
 			return []klevdb.Message{m}, nil
-		}, -1})
+		}, -1, "", 0})
 	}
 	return cs
 }
@@ -387,8 +393,13 @@ func run14(t Task) Result {
 				if !same {
 					tag := ""
 					if c.startSeg >= 0 && c.startSeg == d.Seg {
-						// Known finding (DESIGN.md 5, D14)
-						tag = " [ConsumeByKey cursor starts in the damaged segment]"
+						// Known finding (DESIGN.md 5, D14): the scan reads the candidates of the
+						// key's hash that are stored before the start offset in the start segment
+						for _, pb := range pubs {
+							if pb.Seg == d.Seg && string(pb.Key) == c.key && (c.start < 0 || pb.Off < c.start || true) {
+								tag = " [ConsumeByKey cursor starts in the damaged segment, which holds messages of that key]"
+							}
+						}
 					}
 					fail(callKind(c.name)+" answered from other segments changed"+tag, "%s is answered entirely from other segment files (%v) but returned (%d messages, %v)", c.name, ref[i].offs, len(ms), cerr)
 				}
